@@ -130,7 +130,7 @@ def seeded(props, only, tier_args):
     return missed
 
 
-def matrix(props, only, tier_args, seeds):
+def matrix(props, only, tier_args, seeds, own_only=False, out_name="MATRIX.json"):
     """Every seeded / hand-written change against every requested check, for several VERIF_SEEDs:
     which checks catch which changes, and how reliably within the quick budget."""
     rows = []
@@ -141,7 +141,10 @@ def matrix(props, only, tier_args, seeds):
         if only and only not in name:
             continue
         row = {"change": name}
+        own = os.path.basename(name)[:3]
         for prop in props:
+            if own_only != (prop == own):
+                continue
             hits = []
             for seed in seeds:
                 d = scratch_repo(patch, 1)
@@ -157,7 +160,7 @@ def matrix(props, only, tier_args, seeds):
             row[prop] = hits
             print("matrix %-48s %s %s" % (name, prop, hits), flush=True)
         rows.append(row)
-    with open(os.path.join(env.VERIF, "seeded", "MATRIX.json"), "w") as f:
+    with open(os.path.join(env.VERIF, "seeded", out_name), "w") as f:
         json.dump({"seeds": seeds, "tier": tier_args, "rows": rows}, f, indent=1)
     return 0
 
@@ -176,6 +179,7 @@ def main():
     ap = argparse.ArgumentParser()
     ap.add_argument("what", nargs="?", default="all", choices=("determinism", "mutants", "seeded", "unchanged", "all", "patch", "matrix"))
     ap.add_argument("--matrix-seeds", default="0,1,2")
+    ap.add_argument("--own", action="store_true", help="matrix: only the check of the property the change was written against (else: only the others)")
     ap.add_argument("--patch", default=None)
     ap.add_argument("--props", default="C06,C07,C11,C12,C19")
     ap.add_argument("--only", default=None)
@@ -187,7 +191,8 @@ def main():
     tier_args = ["--tier", a.tier]
     bad = 0
     if a.what == "matrix":
-        matrix(props, a.only, tier_args, [int(x) for x in a.matrix_seeds.split(",")])
+        matrix(props, a.only, tier_args, [int(x) for x in a.matrix_seeds.split(",")], a.own,
+               "MATRIX_own.json" if a.own else "MATRIX_cross.json")
     if a.what == "patch":
         for prop in props:
             if not one_mutant(os.path.basename(a.patch), prop, a.patch, 1, tier_args):
